@@ -374,7 +374,10 @@ class OrderedRingBuffer(Generic[FloatArray]):
         )
 
         if fill_value is not None:
-            window = self._fill_gaps(window, fill_value, start, self.gaps)
+            # The window starts at the slot `start` falls into, not at `start` itself
+            window = self._fill_gaps(
+                window, fill_value, self.normalize_timestamp(start), self.gaps
+            )
         return window
 
     def _fill_gaps(
